@@ -254,8 +254,12 @@ def run_shard(args) -> Dict[str, Any]:
                     continue
                 try:
                     stats.run(case)
-                except Violation:
-                    if stats.failures > 200:
+                except Violation as v:
+                    # every hung case costs a whole case_timeout: two are
+                    # enough to report
+                    if stats.failures > 200 or \
+                            (v.clause == 'case-timeout' and
+                             stats.failures >= 2):
                         break
         else:
             import hypothesis
